@@ -301,6 +301,8 @@ def _total_on_nonempty(f, e, depth=6):
         return False
     if c.endswith("Option::or"):
         return _total_on_nonempty(f, e[2][0], depth - 1) or _total_on_nonempty(f, e[2][1], depth - 1)
+    if c.endswith("BTreeSet::first") or c.endswith("BTreeSet::last"):
+        return e[2][0][0] == "field" and e[2][0][2] == "symbols"
     if last in ("next", "next_back", "last", "max", "min") and e[2]:
         src = e[2][0]
         while src[0] == "call" and (src[1].endswith("Iterator::copied") or src[1].endswith("Iterator::cloned") or src[1].endswith("Iterator::rev")):
@@ -319,6 +321,22 @@ def gate_hint(ctx):
     need(fn in f.thir, r, fn)
     e = T.sx(f.thir[fn]["body"], {})
     ok = _total_on_nonempty(f, e)
+    if not ok:
+        # statement form: guard clauses `if c { return A; }` followed by a final expression - every exit must be total
+        hs = T.stmts(f.thir[fn]["body"], {})
+        exits = []
+        shape_ok = bool(hs) and hs[-1][0] == "expr"
+        for st in hs[:-1]:
+            if st[0] in ("let", "letpat"):
+                continue
+            if st[0] == "if" and not st[3] and len(st[2]) == 1 and st[2][0][0] == "return" and st[2][0][1] is not None:
+                exits.append(st[2][0][1])
+            else:
+                shape_ok = False
+        if shape_ok:
+            exits.append(hs[-1][1])
+            ok = all(_total_on_nonempty(f, x) for x in exits)
+            e = ("exits", tuple(exits))
     obs.append(Ob(r, "hint-total", ok,
                   "SymbolList::upper_limit_for_number_of_codewords returns Some for every non-empty list on every branch (it is only a reservation hint; its None is mapped to SymbolListEmpty)",
                   site=T.span_str(f.thir[fn]["span"]), detail=T.sx_show(e, 400)))
